@@ -33,7 +33,11 @@ Spec:   MofText.tla      class alphabet; Esc (_mof_escaped), FoldStep (one
         MofTextDeclMC.tla  TLC checks both, refutes the variants (two
                          *Legacy*.cfg must fail) and PRINTS the scope cases
                          and the session histories; each becomes a real
-                         declaration / a history on ONE real MOFCompiler.
+                         declaration / a history on ONE real MOFCompiler
+                         (steps prime / declare / use, fail = a text the
+                         compiler rejects - at top level or inside the nested
+                         compile of an embedded instance value -, inst = an
+                         instance text).
         MofTextTrace.tla trace validation (TraceKit): verdict per event; the
                          requirement machine keeps the session's current
                          declarations as state.
@@ -432,6 +436,34 @@ def session_case(rng, hist, idx):
     maxline = rng.choice([40, 80, rng.randint(40, 130)])
     repo, steps = {}, []
     for k, (op, n, v) in enumerate(hist):
+        if op in ("fail", "inst"):
+            # fail(k): a text the compiler must reject (hand-made: a grammar
+            # error, an unknown superclass, or the tomof() text of an
+            # instance whose EMBEDDED instance is spoilt so that the nested
+            # compile fails); inst(k): a valid instance, plain or with an
+            # embedded instance value.  Classes get names of their own (one
+            # namespace for the whole history); numeric / boolean values only
+            # (the known findings about string escapes stay out)
+            typ = rng.choice(["uint8", "sint16", "uint32", "uint64",
+                              "boolean", "sint64"])
+            emb = n in ("emb", "embdep", "embsyntax")
+            if op == "fail" and not emb:
+                steps.append({"step": "fail", "kind": n, "spec": None,
+                              "text": {
+                                  "syntax": "class SessBad%d_%d { uint8 ; };",
+                                  "dependency": "class SessBad%d_%d : "
+                                  "SessNoSuchSuper { uint8 p; };"}[n]
+                              % (idx, k)})
+                continue
+            spec = unit(rng, "instemb" if emb else "instprop", typ, "scalar",
+                        H.rand_value(rng, typ, "scalar", "short", False),
+                        maxline)["spec"]
+            spec["cls"] = "SessI%d_%d" % (idx, k)
+            if emb:
+                spec["props"][0]["val"]["inst"]["cls"] = \
+                    "SessE%d_%d" % (idx, k)
+            steps.append({"step": op, "kind": n, "spec": spec})
+            continue
         if op in ("prime", "declare"):
             t, f = SESS_VER[v]
             flv = dict(SESS_FLV[f], transl="N", toinst="N")
@@ -453,7 +485,9 @@ def session_case(rng, hist, idx):
             spec["name"] = "SessCls%d" % k
         steps.append({"step": op, "spec": spec})
     return {"gen": "session", "where": "session", "type": "", "shape": "",
-            "ops": ".".join(op[0].upper() + n[1] for op, n, _ in hist),
+            "ops": ".".join(op[0].upper() + (n[1] if op[0] in "pdu"
+                                             else "-" + n)
+                            for op, n, _ in hist),
             "hist": [list(x) for x in hist], "steps": steps}
 
 
@@ -662,7 +696,7 @@ def stale_copy(case, trace):
                     if x["et"] == "qual":
                         x["type"] = olds[-1]
                 return t
-        else:
+        elif st["step"] in ("prime", "declare"):
             d = e["orig"][0]
             decls.setdefault(d["qn"], []).append(d["type"])
     return None
@@ -777,8 +811,10 @@ def run(ctx):
                  label="qualifier declarations: every scopes dictionary with "
                        "<= 3 entries x key spelling (upper/lower/mixed, False "
                        "entries) -> Scope(...) -> compiled; compiler session "
-                       "(prime/declare/use, 2 names x 4 versions, <= 6 steps) "
-                       "with the qualifier cache; cases and histories emitted")
+                       "(prime/declare/use, 2 names x 4 versions, <= 6 steps; "
+                       "fail = a rejected text of 4 kinds, inst = an instance "
+                       "text) with the qualifier cache and the embedded-object "
+                       "mode; cases and histories emitted")
     scope_cases = sorted(tuple(v[1]) for v in rd.printed("SCOPECASE"))
     histories = sorted(tuple(tuple(x) for x in v[1])
                        for v in rd.printed("HISTORY"))
@@ -790,7 +826,7 @@ def run(ctx):
             % (len(scope_cases), len(histories)))
     refd = {v[1]: v[2] for v in rd.printed("REFUTED")}
     if set(refd) != {"keyCaseSensitive", "flagIgnored", "cacheSetDefault",
-                     "cacheNotUpdated"} or \
+                     "cacheNotUpdated", "embModeSticks"} or \
             not all(n > 0 for n in refd.values()):
         raise vlib.MachineryError("MofTextDeclMC variants not refuted by the "
                                   "emitted cases: %r" % (refd,))
@@ -800,7 +836,12 @@ def run(ctx):
              "against the keys as spelled"),
             ("MofTextDeclMCLegacyCache.cfg", ("SessionRoundTrip",),
              "p_mp_setQualifier keeps an already cached declaration "
-             "(setdefault)")):
+             "(setdefault)"),
+            ("MofTextDeclMCLegacyEmbMode.cfg", ("SessionRoundTrip",),
+             "compile_embedded_value restores parser.embedded_objects only "
+             "on the success path: after one failed nested compile the "
+             "compiler collects instances instead of creating them and "
+             "refuses declarations")):
         r = ctx.tlc("MofTextDeclMC", cfg, workers=2, must_pass=False,
                     count=False, label="regression config: " + what)
         if r.violated not in inv:
